@@ -35,6 +35,7 @@ def bundle_plan(pg):
     rng, S = pg.rng, pg.S
     body = [msg(S, "open_run")]
     streams = {"primary": None, "aux": None}
+    declared = {}
     readables = pg.dets + pg.motors
     for _ in range(rng.choice([3, 4, 5, 6])):
         stream = rng.choice(["primary", "primary", "aux"])
@@ -45,9 +46,23 @@ def bundle_plan(pg):
         if rng.random() < 0.7:
             body.append(msg(S, "checkpoint"))
         body.append(msg(S, "create", None, name=stream))
-        kind = rng.choice(["normal", "normal", "normal", "drop", "empty", "collide", "checkpoint_inside", "configure_inside"])
+        kind = rng.choice(["normal", "normal", "normal", "drop", "empty", "collide", "checkpoint_inside", "configure_inside", "mismatch"])
         if kind == "collide" and "d1" not in objs:
             kind = "normal"
+        if kind == "mismatch":
+            # a bundle that reads another set of objects than its stream was declared with: 'save' is rejected
+            # (the plan catches that and carries on); the rejected bundle must leave nothing behind for the next one
+            extra = [o for o in readables if o not in objs]
+            if not declared.get(stream) or not extra:
+                kind = "normal"
+            else:
+                for o in objs[: rng.choice([0, 1])] + [rng.choice(extra)]:
+                    body.append(msg(S, "read", o))
+                body.append({"op": "try", "site": S(), "body": [msg(S, "save")], "handlers": [{"exc": "RuntimeError", "body": [msg(S, "null")]}]})
+                if rng.random() < 0.5:
+                    # ... for instance an empty bundle on a stream that does not exist yet
+                    body += [msg(S, "create", None, name="late"), msg(S, "save")]
+                continue
         if kind == "empty":
             body.append(msg(S, "save"))
             continue
@@ -76,6 +91,8 @@ def bundle_plan(pg):
                 }
             )
         body.append(msg(S, "drop" if kind == "drop" else "save"))
+        if kind != "drop":
+            declared[stream] = True
     body.append(msg(S, "close_run"))
     return body
 
@@ -178,6 +195,11 @@ def check(res):
         elif cmd == "drop" and end == "ok":
             if any(d.d["name"] == "event" for d in docs_at_step.get(e.step, []) if d.seq < e.seq and d.seq > m.seq):
                 out.append(V("drop-emitted-event", "a 'drop' emitted an event"))
+            bundle = None
+        elif cmd == "save" and end == "error":
+            # a rejected save (objects differ from the stream's declaration) ends the bundle and emits nothing
+            if any(d.d["name"] == "event" for d in docs_at_step.get(e.step, []) if m.seq < d.seq < e.seq):
+                out.append(V("rejected-save-emitted-event", f"a 'save' that raised {e.d.get('exc')} emitted an event"))
             bundle = None
         elif cmd == "save" and end == "ok":
             emitted = [d for d in docs_at_step.get(e.step, []) if m.seq < d.seq < e.seq and d.d["name"] == "event"]
